@@ -9,14 +9,16 @@ ID = "C12"
 FLAVOURS = ["asan"]
 HARNESS_SRCS = ["harness/C12.cpp"]
 CRASH_IS_VIOLATION = True
-RULE = ("(a) meaning: sequences of 0-8 documented options, each spelled attached or separated at random, any order and multiplicity, "
-        "values from an identifier pool that interacts with the probe registry and includes prefixes of option names, numbers and "
-        "option-like texts; time source 0 / 2^32 / random; -h at random positions.  (b) safety: arbitrary byte strings 0-40 bytes, every "
+RULE = ("(a) meaning: sequences of 0-8 documented options (single-option vectors, the ones judged against the help sentences, are a fifth), "
+        "each spelled attached or separated at random, any order and multiplicity, "
+        "values from an identifier pool that interacts with the probe registry and includes prefixes of option names, numbers, "
+        "option-like texts and the shapes the compound forms exclude; time source 0 / 2^32 / random; -h at random positions.  (b) safety: arbitrary byte strings 0-40 bytes, every "
         "dispatch literal truncated at every length and extended with junk, value options as last argument, TEST(/IGNORE_TEST( forms "
         "with missing comma/bracket/space, -t values with 0-3 dots, numeric edge values for -r/-s, ac 0-12.  "
         "non-trivial = at least one argument after argv[0]")
 ASSUMPTIONS = ["arguments are C strings (no NUL inside)",
-               "AtoI is never handed more than 9 digits (signed overflow has atoi's contract); AtoU wraps and is covered",
+               "no argument starts (after blanks and a sign, also counted from its third character) with more than 9 digits: AtoI's int would overflow (atoi's contract); the same bound is put on the digits AtoU reads, so its wrap-around is not exercised",
+               "an argument is shorter than 4 GiB",
                "LP64; the plugin passed to parse() accepts exactly the arguments starting with -pok"]
 
 FLAGS = [":h", ":v", ":vv", ":c", ":p", ":b", ":lg", ":ln", ":ll", ":ri", ":f", ":e", ":ci"]
@@ -28,7 +30,9 @@ PRE_T = ["-t", "-st", "-xt", "-xst"]
 OUTS = ["normal", "eclipse", "junit", "teamcity"]
 IDENTS = [b"grp", b"name", b"ame", b"gr", b"Group", b"Test", b"a", b"b", b"ab", b"ba", b"G", b"T", b"mygrp", b"myname", b"x", b"y", b"g1", b"t1",
           b"other", b"name2", b"grp2", b"1", b"007", b"12", b"r", b"s", b"t", b"g", b"n", b"xg", b"st", b"v", b"-v", b"-h", b"ok", b"i", b"o",
-          b"junit", b"TEST(", b"p", b"e", b" ", b"a b", b"_", b"Z9_", b"\xff", b"k", b"-", b"+5", b"0"]
+          b"junit", b"TEST(", b"p", b"e", b" ", b"a b", b"_", b"Z9_", b"\xff", b"k", b"-", b"+5", b"0",
+          # shapes some forms exclude (then only safety / well-formedness is judged): separators of the compound forms, empty
+          b"a.b", b"x,y", b"q)", b"gr.", b",", b")", b""]
 LITERALS = ["-h", "-v", "-vv", "-c", "-p", "-b", "-lg", "-ln", "-ll", "-ri", "-f", "-e", "-ci", "-r", "-g", "-t", "-st", "-xt", "-xst", "-sg",
             "-xg", "-xsg", "-n", "-sn", "-xn", "-xsn", "-s", "TEST(", "IGNORE_TEST(", "-o", "-p", "-k", "-pok"]
 TIMES = [0, 1, 1 << 32, (1 << 32) + 5, 0xfffffffff, 12345]
@@ -84,10 +88,6 @@ def gen_opt(rng):
         return (":o %x" % o, [b"-o" + OUTS[o].encode()], [b"-o", OUTS[o].encode()])
     v = ident()
     return (":k " + tb(v), [b"-k" + v], [b"-k", v])
-
-
-def ident_ok(v):
-    return len(v) > 0 and all(c not in (0, 46, 44, 41) for c in v)
 
 
 def doc_scenario(rng):
@@ -328,14 +328,23 @@ def spell(o, form):
 
 
 LEVEL_TEXT = ("Machine-checked (Coq) theorems over an executable model of CommandLineArguments::parse that walks the dispatch table re-read from "
-              "the source (so a reordering of the else-if chain re-checks every theorem), with getParameterField, setRepeatCount, setShuffle, "
-              "the group.name and TEST(group, name) slicing, output type and package: the parser is a structural recursion over argv (index only "
-              "moves forward), every dispatch rule has an action, and for every sequence of documented options with identifier-like values in "
-              "every attached/separated spelling the result is the documented configuration (-h anywhere: help, no run); filters select what the "
-              "help text says. Tied to the code by a differential run on exact-size heap argv under ASan/UBSan with the extracted spec as judge.")
-LEVEL_NOTE = ("Partial for memory safety: the string helpers are total list functions (C13 proves SimpleString equal to them); real accesses are "
-              "seen only by the sanitizers on the generated vectors. Trusted: Coq kernel, extraction, harness, generator, tools/gen/C12.py. "
-              "Excluded: AtoI on more than 9 digits (atoi's contract). Modelled not verified: the C++ itself; the runner beyond 'rejected => "
-              "usage/help printed, nothing runs' belongs to C01/C02.")
-TECHNIQUE = "Coq proof over hand-written executable model driven by a source-extracted dispatch table + differential check under sanitizers"
+              "the source (a reordering of the else-if chain re-checks every theorem), with getParameterField, setRepeatCount, setShuffle, the "
+              "group.name and TEST(group, name) slicing, output type and package: (1) totality -- structural recursion over argv, every dispatch "
+              "rule has an action, result is reject or configuration; (2) memory safety -- the same parser written over C buffers with the "
+              "bounds-checked SimpleString primitives of the C13 model (pointer steps av[i]+2 / +len, av[i+1], at(0), subString, split, AtoI, "
+              "AtoU) returns Ok of the list-level result for EVERY valid argv (the pre-a2ff8a1 subString is refuted on 'TEST('); (3) meaning -- "
+              "for every sequence of documented options, every attached/separated spelling, values of the stated shapes, parse = documented "
+              "configuration (-h anywhere: help); (4) reject => usage/help printed and runAllTests not called (the deciding lines of "
+              "CommandLineTestRunner); (5) filters: each kind accepts exactly substring/equal/negations, and a vector that is one "
+              "test-selection option selects exactly what its sentence in help() -- re-read from the source -- names. Tied to the code by a "
+              "differential run on exact-size heap argv under ASan/UBSan with the extracted spec as judge.")
+LEVEL_NOTE = ("Partial for memory safety: the Coq statement is about the bounds-checked model (Oob/NoFuel/Ub are results it can return and "
+              "provably does not); real heap accesses are seen only by the sanitizers on the generated vectors. Trusted: Coq kernel, "
+              "extraction, harness, generator, tools/gen/C12.py (dispatch chain, output names, help sentences by anchored regexes). "
+              "Excluded by precondition: NUL inside an argument, arguments of 4 GiB or more, AtoI on more than 9 digits (atoi's contract). "
+              "Modelled not verified: the C++ itself; the plugin is the harness's (-pok...); the help text gives no rule for combining "
+              "several selection options (modelled as the code does: OR inside the group list and inside the name list, AND between "
+              "them -- two -xg therefore do not both exclude); the runner beyond 'rejected => usage/help printed, nothing runs' belongs "
+              "to C01/C02.")
+TECHNIQUE = "Coq proof over hand-written executable models (list level + bounds-checked buffer level) driven by source-extracted dispatch/help tables + differential check under sanitizers"
 READY = False
